@@ -156,10 +156,30 @@ def run(ctx):
     for f in w.crate_fns(ENG):
         if f.derived or "::_::" in f.pretty:
             continue
+        built = False
         for bi in f.reachable():
             for s in f.blocks[bi]["stmts"]:
                 if s["k"] == "assign" and "agg" in s["rv"] and s["rv"].get("adt", "").endswith("margined_engine::Position"):
-                    ctx.inst("R10.3", "construct:%s" % short_fn(f), False, f.where(s["line"]), "a Position is constructed from scratch in engine code")
+                    built = True
+        if not built:
+            continue
+        # `Position { margin: m, ..position }` rebuilds the record: fine as long as vamm and trader are copied from the
+        # position it was built from (a load / the requested key), not chosen freshly
+        bad = None
+        try:
+            for p in ix.ok_paths(f):
+                for v in model.path_values(p):
+                    for x in sym.walk(v):
+                        if tag(x) == "agg" and payload(x)[0].endswith("margined_engine::Position"):
+                            for fld in ("vamm", "trader"):
+                                o = ix.inline(sym.field(x, fld))
+                                copied = tag(o) == "field" and payload(o)[0] == fld
+                                if not copied and tag(idt.origin(o, fld, 6)) != "param":
+                                    bad = bad or "%s = %s" % (fld, sym.show(o, 4))
+        except Exception as e:
+            bad = "could not evaluate: %s" % e
+        if bad:
+            ctx.inst("R10.3", "construct:%s" % short_fn(f), False, f.where(), "a Position is constructed with a freshly chosen %s" % bad)
 
     # ---------------------------------------------------------------- R10.4
     for c in ("margined_engine", "margined_vamm", "margined_insurance_fund", "margined_fee_pool", "margined_pricefeed"):
